@@ -47,6 +47,8 @@ type Config struct {
 	// FanHistories: histories whose pool is one 256-way fan-out family plus a few unrelated keys
 	// (large non-root nodes with siblings), checked rarely: for monitors that are costly per check
 	FanHistories int
+	// BigHistories: a tree of a few thousand keys, checked two or three times
+	BigHistories int
 	// ClosedAllQueries: closed explorations query all bound pairs / derived prefixes after every transition
 	ClosedAllQueries bool
 	// ClosedNeighbours: (thorough) bounds also range over one neighbour of every universe key
@@ -428,6 +430,99 @@ func (s *Session[K]) Final(r *rng.R, pool []K) {
 	s.digestState()
 }
 
+// RunStaleLaneWalk: the directed history behind every "stale lane / stale slot"
+// defect: fill one node to exactly c children, remove the child under the
+// largest byte, drain further, then touch the removed key again (search it,
+// delete it again, insert it again, delete it), with all monitors after every step.
+func (s *Session[K]) RunStaleLaneWalk(r *rng.R) {
+	fam := s.K.Fan(r)
+	if len(fam) < 20 {
+		return
+	}
+	s.every = 1
+	sorted := append([]K{}, fam...)
+	// ascending by the oracle order: position in the family == branch byte order
+	for i := 1; i < len(sorted); i++ {
+		for j := i; j > 0 && s.K.Cmp(sorted[j-1], sorted[j]) > 0; j-- {
+			sorted[j-1], sorted[j] = sorted[j], sorted[j-1]
+		}
+	}
+	step := func(f func()) bool {
+		f()
+		if !s.Dead {
+			s.After(r)
+		}
+		return !s.Dead
+	}
+	for _, c := range []int{4, 16, 5, 17, 48} {
+		if c > len(sorted) {
+			continue
+		}
+		start := r.Intn(len(sorted) - c + 1)
+		members := append([]K{}, sorted[start:start+c]...)
+		ins := append([]K{}, members...)
+		if r.Chance(1, 2) {
+			rng.Shuffle(r, ins)
+		}
+		var stored []K
+		for _, k := range ins {
+			if s.Insert(k) {
+				stored = append(stored, k)
+			}
+			if s.Dead {
+				return
+			}
+		}
+		if len(stored) < 3 {
+			continue
+		}
+		// the largest stored member
+		mx := stored[0]
+		for _, k := range stored {
+			if s.K.Cmp(k, mx) > 0 {
+				mx = k
+			}
+		}
+		if !step(func() { s.Delete(mx) }) {
+			return
+		}
+		// drain to 3 (never refilling), smallest or random first
+		rest := make([]K, 0, len(stored))
+		for _, k := range stored {
+			if s.K.Cmp(k, mx) != 0 {
+				rest = append(rest, k)
+			}
+		}
+		rng.Shuffle(r, rest)
+		for len(rest) > 3 {
+			k := rest[len(rest)-1]
+			rest = rest[:len(rest)-1]
+			if !step(func() { s.Delete(k) }) {
+				return
+			}
+			if r.Chance(1, 3) {
+				if !step(func() { s.Search(mx); s.Delete(mx) }) {
+					return
+				}
+			}
+		}
+		if !step(func() { s.Search(mx) }) || !step(func() { s.Delete(mx) }) || !step(func() { s.Insert(mx) }) || !step(func() { s.Delete(mx) }) || !step(func() { s.Insert(mx) }) {
+			return
+		}
+		// clean up for the next size
+		for _, k := range append(rest, mx) {
+			s.Delete(k)
+			if s.Dead {
+				return
+			}
+		}
+		s.After(r)
+	}
+	if !s.Dead {
+		s.Final(r, fam)
+	}
+}
+
 // RunSweep: directed threshold walk over one fan-out family.
 func (s *Session[K]) RunSweep(r *rng.R) {
 	fam := s.K.Fan(r)
@@ -450,15 +545,26 @@ func (s *Session[K]) RunSweep(r *rng.R) {
 	targets := []int{5, 3, 6, 17, 12, 18, 11, 49, 37, 50, 36, n, 38, 36, 49, 13, 11, 17, 4, 2, 5, 0}
 	switch r.Intn(3) {
 	case 0:
-		targets = []int{4, 5, 4, 5, 3, 4, 16, 17, 16, 17, 13, 12, 13, 12, 48, 49, 48, 49, 38, 37, 38, 37, 36, 12, 3, 1, 0}
+		targets = []int{4, 5, 4, 5, 3, 4, 16, 17, 16, 17, 13, 12, 13, 12, 48, 49, 48, 49, n, n - 1, n, 38, 37, 38, 37, 36, 12, 3, 1, 0}
 	case 1: // stay inside the 48 class: fill it completely, punch holes, refill, churn
-		targets = []int{17, 48, 40, 48, 47, 48, 30, 48, 13, 48, 47, 48, 20, 31, 30, 31, 30, 31, 30, 31, 30, 31, 30, 31, 30, 31, 30, 31, 30, 31, 30, 31, 30, 31, 30, 31, 30, 31, 30, 48, 12, 3, 0}
+		targets = []int{17, 48, 40, 48, 47, 48, 30, 48, 13, 48, 47, 48, 20, 31, 30, 31, 30, 31, 30, 31, 30, 31, 30, 31, 30, 31, 30, 31, 30, 31, 30, 31, 30, 31, 30, 31, 30, 31, 30, 48, n, 40, 12, 3, 0}
 	}
 	if s.Res.WantSample() {
 		s.Res.Sample(map[string]any{"unit": s.Unit, "kind": s.K.Name, "family_size": n, "first": s.K.Show(order[0]), "targets": targets})
 	}
 	in := map[int]bool{}
 	var live []int
+	delLargest := r.Chance(1, 2)
+	// deep mode: every member travels with a second key under the same branch, so that
+	// the children of the fan-out node are inner nodes
+	var extra []K
+	if s.K.Deepen != nil && r.Chance(1, 2) {
+		extra = make([]K, n)
+		for i := range extra {
+			extra[i] = s.K.Deepen(r, order[i])
+		}
+		s.Res.Inc("sweeps_with_inner_children")
+	}
 	for _, tg := range targets {
 		tg = min(tg, n)
 		for len(live) < tg && !s.Dead {
@@ -488,17 +594,28 @@ func (s *Session[K]) RunSweep(r *rng.R) {
 			}
 			in[j] = true
 			live = append(live, j)
+			if extra != nil && !s.Dead {
+				s.Insert(extra[j])
+			}
 			if !s.Dead {
 				s.After(r)
 			}
 		}
 		for len(live) > tg && !s.Dead {
 			var i int
-			switch r.Intn(3) {
+			switch r.Intn(5) {
 			case 0:
 				i = len(live) - 1
 			case 1:
 				i = 0
+			case 2, 3: // by key order: the largest / smallest live member
+				i = 0
+				for x := range live {
+					c := s.K.Cmp(order[live[x]], order[live[i]])
+					if (delLargest && c > 0) || (!delLargest && c < 0) {
+						i = x
+					}
+				}
 			default:
 				i = r.Intn(len(live))
 			}
@@ -506,6 +623,14 @@ func (s *Session[K]) RunSweep(r *rng.R) {
 			live = append(live[:i], live[i+1:]...)
 			in[j] = false
 			s.Delete(order[j])
+			if extra != nil && !s.Dead {
+				if r.Chance(1, 2) {
+					s.After(r) // between the two: the branch holds a single leaf again
+				}
+				if !s.Dead {
+					s.Delete(extra[j])
+				}
+			}
 			if !s.Dead {
 				s.After(r)
 			}
